@@ -783,6 +783,7 @@ fn run_limit_case(case: &LimitCase, lim: &Limits, obs: &mut Obs) -> Result<(), F
 }
 
 pub fn run(ctx: &mut Ctx) {
+    ctx.enable_crash_sentinel();
     let (lreq, lresp) = hx::codec_size_limits();
     ctx.assume("message bodies are encoded/decoded with prost (trusted); the framing (varint length prefix, completeness, message sequence) is re-implemented independently in the harness");
     ctx.assume("chunk sizes, Pending points, stalls, truncation points and garbage are generated; the codec's 1 s / 5 s time limits are exercised with a paused tokio clock (a stalled stream is cut by the time limit)");
